@@ -683,10 +683,11 @@ pub fn composite() {
             ..KCfg::default()
         };
     });
+    // A quarter of the calls run on a direct descriptor.
+    let direct = tape::chance(site::GEOM, 1, 4);
     let ring = alloc::a10(|| {
-        a10::Ring::config()
-            .with_submission_queue_size(sq)
-            .build()
+        let c = a10::Ring::config().with_submission_queue_size(sq);
+        if direct { c.with_direct_descriptors(4).build() } else { c.build() }
     });
     let Ok(mut ring) = ring else {
         report::harness_error("ring build failed".to_string());
@@ -702,7 +703,37 @@ pub fn composite() {
         other: None,
         signals: Vec::new(),
     });
-    let fd = w.new_fd();
+    let mut fd = w.new_fd();
+    if direct {
+        // Move the descriptor into the ring's table first; the call then runs
+        // on the direct descriptor (the regular one stays open next to it).
+        let made = ops::make(&mut w, ops::Kind::ToDirect, Some(fd), None, 0);
+        let mut t = made.task;
+        let wk = std::task::Waker::noop();
+        let mut produced = Vec::new();
+        let old = kernel::set_cur(90, During::Other);
+        for _ in 0..12 {
+            let mut cx = Context::from_waker(wk);
+            if t.poll(&mut cx, &mut produced).is_ready() {
+                break;
+            }
+            let _ = alloc::a10(|| ring.poll(Some(Duration::ZERO)));
+            kernel::with(|k| {
+                for kid in k.completable(0) {
+                    k.complete_kid(0, kid, true);
+                }
+            });
+            let _ = alloc::a10(|| ring.poll(Some(Duration::ZERO)));
+        }
+        kernel::set_cur(old.0, old.1);
+        drop(t);
+        for p in produced {
+            if let crate::exec::Produced::Fd(d) = p {
+                fd = w.add_fd(d);
+                stats::inc(C::probe_composite_direct);
+            }
+        }
+    }
     let fdnum = ops::fd_num(w.fd_ref(fd)).0;
     let pool = if tape::chance(site::GEOM, 1, 3) {
         alloc::a10(|| ReadBufPool::new(w.sq.clone(), 2, 16)).ok()
